@@ -17,7 +17,9 @@ COQ = os.path.join(VERIF, "coq")
 EXTRACT = os.path.join(VERIF, "extract")
 TARGET = os.path.join(WORK, "target")
 REPLAYS = os.environ.get("VERIF_REPLAYS", os.path.join(VERIF, "replays"))
-EVIDENCE = os.environ.get("VERIF_EVIDENCE", os.path.join(VERIF, "evidence"))
+# a development run that skips the Coq build must never overwrite the committed evidence (it would record 0 obligations)
+_DEV = os.environ.get("VERIF_DEV_SKIP_COQ", "0") not in ("", "0")
+EVIDENCE = os.environ.get("VERIF_EVIDENCE", os.path.join(VERIF, "work", "dev_evidence") if _DEV else os.path.join(VERIF, "evidence"))
 
 ENV = dict(os.environ)
 ENV.update({"CARGO_NET_OFFLINE": "true", "CARGO_TARGET_DIR": TARGET, "CARGO_TERM_COLOR": "never",
